@@ -172,6 +172,42 @@ NEEDS = {
     "C19-r4-2": "single-threaded executor, a failed run leaving a task queued, another model blocked on that model's full mailbox (run queue cleared in Drop under a mutable borrow)",
     "C20-r4-1": "insert, extract that newest entry, insert again, extract with the old key (next_epoch rolled back in extract)",
     "C20-r4-2": ">= 3 inserts, pulls leaving exactly one item, then an insert with that item's key (next_epoch reset when len <= 1)",
+    "C01-r5-1": "non-keyed periodic event scheduled with Duration::ZERO or an absolute deadline equal to now (`>=` became `>` in that sibling only)",
+    "C01-r5-2": "Scheduler::schedule_keyed_event on another thread while a step advances time between the time read and the queue lock",
+    "C02-r5-1": ">= 2 origins with actions at the same time, the later-sorting origin having >= 2 (batch key stays on the first origin: separate tasks, LIFO on one thread)",
+    "C02-r5-2": "a model mixing schedule_keyed_periodic_event with another scheduling method for the same time (key filed under the global origin)",
+    "C03-r5-1": "Output with >= 2 model recipients, a second or later broadcast that finds the last recipient's mailbox full (last slot not cleared: off-by-one)",
+    "C03-r5-2": "clone an Output, let the model's clone send once, then connect through the retained clone (new epoch computed from the caller's cached epoch)",
+    "C04-r5-1": "an Output connected >= 3 times to the same model whose mailbox is full (take_scheduled(pending_count): countdown never expires with one notify_one)",
+    "C04-r5-2": "multi-threaded: a worker's 256-slot local queue overflowing while the injector is empty (was_empty taken from the pushed bucket: flag never cleared)",
+    "C05-r5-1": "~2^31 leaked waker clones, then drops of live clones and a cross-thread wake in the same poll (overflow guard masked with REF_CRITICAL)",
+    "C05-r5-2": "weak memory model only (loom): end-of-poll fetch_sub Acquire instead of AcqRel loses the release edge between consecutive polls on different workers",
+    "C06-r5-1": "a single-threaded simulation run inside a handler of an outer simulation that has a message in flight on that thread (stash restored from the wrong value)",
+    "C06-r5-2": "deadlock on a partially filled mailbox whose capacity is not a power of two (index mask buffer.len()-1 in Queue::len)",
+    "C07-r5-1": ">= 2 origins at the same instant, the later-sorting one with >= 2 events (batch key not advanced)",
+    "C07-r5-2": "> 2^32 cumulated insertions into the scheduler queue with same-time same-origin events across the wrap (Item.epoch narrowed to u32)",
+    "C08-r5-1": "a Scheduler::schedule* call landing between the unlock of the step and the re-lock of the final jump (re-check compares with the current time instead of the target)",
+    "C08-r5-2": "keyed one-shot event with a deadline equal to the current time (`>=` became `>` in that sibling only)",
+    "C09-r5-1": ">= 2 origins at the same time stamp, cancelling and cancelled events not in the first origin group (stale batch key: not chained)",
+    "C09-r5-2": "a keyed periodic occurrence sharing time stamp and origin with the action that cancels it (into_future passes a fresh ActionKey)",
+    "C10-r5-1": "a keyed periodic occurrence coinciding (same time, same origin) with an action that cancels it (into_future passes a fresh ActionKey: fires once more)",
+    "C10-r5-2": "a periodic action with a period below 1 microsecond (re-arm period clamped with max(1us))",
+    "C11-r5-1": "a fault raised by a model that owns sub-models (ModelId taken before build())",
+    "C11-r5-2": "two single-threaded simulations driven from one thread, the first killed by a model fault, then a scheduler-side NoRecipient in the second (CURRENT_MODEL_ID read with get() instead of take())",
+    "C12-r5-1": "push.., close, len (closed flag leaks into the enqueue index: mask right_mask instead of right_mask >> 1)",
+    "C12-r5-2": ">= capacity pushes ever, close, drain, pop (closed test compares with the masked index: Empty forever instead of Closed)",
+    "C13-r5-1": "a scheduled task woken a second time (even, non-zero wake count), then a handle released (runnable_exists tests only the lowest wake bit)",
+    "C13-r5-2": "cancel() as the very last handle operation on a Closed task (output dropped when POLLING == 0 instead of CLOSED == 0)",
+    "C14-r5-1": "connect via clone A, send via clone B, connect again via A or a fresh clone, send via B (epoch from the writer's cache)",
+    "C14-r5-2": "a query to >= 2 repliers whose reply iterator is only partly consumed, then another query (last slot never cleared)",
+    "C15-r5-1": "a reader on another thread overlapping a time update (first sequence store adds 2: the count is never odd)",
+    "C15-r5-2": "weak memory model only (loom): first sequence load Relaxed instead of Acquire",
+    "C16-r5-1": "a panic or missing recipient in a parent or mid-level model of a hierarchy (ModelId taken before build())",
+    "C16-r5-2": "a model's init sending more events through a multi-connection output than the last recipient's mailbox holds (last slot not cleared)",
+    "C17-r5-1": "EventBuffer::with_capacity_closed with capacity < 16, reopened and overflowed (capacity.max(DEFAULT_CAPACITY))",
+    "C17-r5-2": "connect a sink, clone the output, let the model send, connect another sink through the idle clone, send again (epoch from the local cache)",
+    "C18-r5-1": "tolerance set, step_until ending on a time with no event, clock lag exactly equal to the tolerance (`>` became `>=` on the final jump only)",
+    "C18-r5-2": "over-tolerance lag at a time with events, caller continues after the OutOfSync error (is_terminated = false: the refused time's actions run at the next call)",
     "C19-2": "output with >= 2 connections, a full target mailbox, simulation dropped while the broadcast is pending (ManuallyDrop not released)",
 }
 
@@ -190,7 +226,7 @@ def _needs_from_notes(d):
 def main():
     os.makedirs(DST, exist_ok=True)
     n = 0
-    for cj in sorted(glob.glob(os.path.join(SRC, "C*", "*", "confirm.json")) + glob.glob(os.path.join("/tmp/mutout2", "C*", "*", "confirm.json")) + glob.glob(os.path.join("/tmp/mutout3", "C*", "*", "confirm.json")) + glob.glob(os.path.join("/tmp/mutout4", "C*", "*", "confirm.json"))):
+    for cj in sorted(glob.glob(os.path.join(SRC, "C*", "*", "confirm.json")) + glob.glob(os.path.join("/tmp/mutout2", "C*", "*", "confirm.json")) + glob.glob(os.path.join("/tmp/mutout3", "C*", "*", "confirm.json")) + glob.glob(os.path.join("/tmp/mutout4", "C*", "*", "confirm.json")) + glob.glob(os.path.join("/tmp/mutout5", "C*", "*", "confirm.json"))):
         d = os.path.dirname(cj)
         c = json.load(open(cj))
         sid = c["id"]
@@ -213,7 +249,7 @@ def main():
             "breaks_property": sid.split("-")[0],
             "files_changed": files,
             "needs_to_manifest": NEEDS.get(sid, old.get("needs_to_manifest") or _needs_from_notes(d)),
-            "round": 4 if "-r4-" in sid else (3 if "-r3-" in sid else (2 if "-r2-" in sid else 1)),
+            "round": 5 if "-r5-" in sid else 4 if "-r4-" in sid else (3 if "-r3-" in sid else (2 if "-r2-" in sid else 1)),
             "demonstration": demos,
             "confirmed_by_me": {
                 "how": "tools/confirm_seed.sh on a scratch git worktree of /repo at %s (removed afterwards): git apply patch.diff; cargo build --workspace; "
